@@ -202,8 +202,10 @@ pub fn gen_case(g: &mut Gen) -> Case {
                     _ => g.below(0o10000) as u32,
                 };
                 let prefix = g.pick(&["", "-", "/"]);
-                let text = match g.below(8) {
+                let text = match g.below(9) {
                     0 => format!("{m:o}"),
+                    // an operator and an octal number is a mode too
+                    8 => format!("={m:o}"),
                     // 'X': execute/search only for directories, or where an execute bit is already set
                     7 => g.pick(&["a+X", "a=X", "u=rwX", "u+x,go+X", "a=r,a+X", "go=X", "u=rw,a+X", "a=rX"]).to_string(),
                     k => symbolic(m, (k - 1) as u8),
@@ -264,6 +266,9 @@ fn has_passwd(id: u32) -> bool {
 fn perm_value(text: &str, is_dir: bool) -> u32 {
     if text.chars().next().map_or(false, |c| c.is_ascii_digit()) {
         return u32::from_str_radix(text, 8).unwrap();
+    }
+    if let Some(digits) = text.strip_prefix(['=', '+']).filter(|d| !d.is_empty() && d.bytes().all(|b| b.is_ascii_digit())) {
+        return u32::from_str_radix(digits, 8).unwrap();
     }
     let mut m = 0u32;
     for clause in text.split(',') {
